@@ -1414,6 +1414,24 @@ func (m *Machine) builtin(b *ssa.Builtin, args []Value, caller *frame, cc *ssa.C
 		return nil
 	case "print", "println":
 		return nil
+	case "clear":
+		switch v := args[0].(type) {
+		case SliceV:
+			if v.arr != nil {
+				for i := 0; i < v.len; i++ {
+					m.storeCell(v.arr.cells[v.off+i], m.zero(v.arr.elem))
+				}
+			}
+			return nil
+		case MapV:
+			if v.m != nil && len(v.m.keys) > 0 {
+				m.mapMutate(v.m, false)
+				v.m.keys = nil
+				v.m.vals = nil
+			}
+			return nil
+		}
+		m.unsupported(fmt.Sprintf("clear of %T", args[0]))
 	case "recover":
 		if m.recoverable != nil && m.recoverable.panicking != nil {
 			gp := m.recoverable.panicking
